@@ -4,6 +4,8 @@ package props
 // verification over the Sig_structure (crypto/* only, no go-cose).
 
 import (
+	"io"
+
 	"crypto"
 	"crypto/ecdsa"
 	"crypto/ed25519"
@@ -13,6 +15,7 @@ import (
 	"crypto/sha256"
 	"crypto/sha512"
 	"fmt"
+	cose "github.com/veraison/go-cose"
 	"hash"
 	"math/big"
 
@@ -265,4 +268,51 @@ func (noParamsCurve) Double(x1, y1 *big.Int) (*big.Int, *big.Int)             { 
 func (noParamsCurve) ScalarMult(x, y *big.Int, k []byte) (*big.Int, *big.Int) { return x, y }
 func (noParamsCurve) ScalarBaseMult(k []byte) (*big.Int, *big.Int) {
 	return big.NewInt(0), big.NewInt(0)
+}
+
+// fixedNonceSigner is a correct ECDSA signer (raw r||s, as COSE wants it) whose nonce is chosen so that the signature
+// BYTES have a given look: what a signer returns is an answer of the environment, and nothing in the claims selects it.
+// look 0: r starts with 0x30 and a length byte that makes the signature read like the head of an ASN.1 DER SEQUENCE
+// (nonces found once by search: 82845 for P-256, 46345 for P-384); look 1: r starts with a zero byte; look 2: s starts
+// with a zero byte.
+type fixedNonceSigner struct {
+	key  *fixtures.Key
+	alg  string
+	look int
+}
+
+func (f fixedNonceSigner) Algorithm() cose.Algorithm { return cose.Algorithm(algIDs[f.alg]) }
+func (f fixedNonceSigner) Sign(_ io.Reader, content []byte) ([]byte, error) {
+	priv := f.key.Priv.(*ecdsa.PrivateKey)
+	curve := priv.Curve
+	n := curve.Params().N
+	size := (curve.Params().BitSize + 7) / 8
+	_, h := algHash(f.alg)
+	h.Write(content)
+	digest := h.Sum(nil)
+	if len(digest) > size {
+		digest = digest[:size]
+	}
+	e := new(big.Int).SetBytes(digest)
+	start := int64(1)
+	if f.look == 0 {
+		start = map[string]int64{"ES256": 82845, "ES384": 46345}[f.alg]
+	}
+	for k := start; ; k++ {
+		kb := big.NewInt(k)
+		x, _ := curve.ScalarBaseMult(kb.Bytes())
+		r := new(big.Int).Mod(x, n)
+		s := new(big.Int).Mul(r, priv.D)
+		s.Add(s, e)
+		s.Mul(s, new(big.Int).ModInverse(kb, n))
+		s.Mod(s, n)
+		if r.Sign() == 0 || s.Sign() == 0 {
+			continue
+		}
+		rb, sb := r.FillBytes(make([]byte, size)), s.FillBytes(make([]byte, size))
+		if (f.look == 1 && rb[0] != 0) || (f.look == 2 && sb[0] != 0) {
+			continue
+		}
+		return append(rb, sb...), nil
+	}
 }
